@@ -29,7 +29,8 @@ def plan(tier, seed):
     n = 10 if tier == "quick" else 40
     return ([{"kind": "control", "n": 600 if tier == "quick" else 3500} for _ in range(n)]
             + [{"kind": "comprehensions", "n": 700 if tier == "quick" else 4000} for _ in range(n // 2)]
-            + [{"kind": "order", "n": 500 if tier == "quick" else 4000} for _ in range(2 if tier == "quick" else 8)])
+            + [{"kind": "order", "n": 500 if tier == "quick" else 4000} for _ in range(2 if tier == "quick" else 8)]
+            + [{"kind": "returns", "legacy": True}, {"kind": "returns", "legacy": False}])
 
 
 def multiset(av):
@@ -38,7 +39,118 @@ def multiset(av):
     return av
 
 
+# (name, program with the function body {F}, the value the body computes)
+RETURN_CALLBACKS = [
+    ("direct-call", "(fn(x) {F})(5)", "x * 2"), ("named-function", "def f(x) {F}; [f(1), f(2)]", "x * 2"),
+    ("sorted-cmp", "sorted([2, 1, 3, 1], cmp = fn(a, b) {F})", "compare(a, b)"), ("sorted-key", "sorted([13, 2, 11, 25], key = fn(a) {F})", "a % 10"),
+    ("map_list", "map_list([1, 2], fn(x) {F})", "x * 2"), ("filter", "filter([1, 2, 3], fn(x) {F})", "x > 1"), ("reduce", "reduce([1, 2, 3], fn(a, b) {F})", "a * 10 + b"),
+    ("for_each", "def acc = []; def h_(x) {F}; for_each([1, 2], fn(x) do def v_ = h_(x); append(acc, v_) end); acc", "x + 1"),
+    ("for_each-callback-returns", "def acc = []; for_each([1, 2], fn(x) do append(acc, x); {F} end); acc", "x + 1"), ("grouped", "grouped([1, 3, 2, 4], fn(x) {F})", "x % 2"),
+    ("find-key", "find([[1], [2], [3]], 4, key = fn(x) {F})", "x[0] * 2"), ("find_last-key", "find_last([[1], [2], [2]], 4, key = fn(x) {F})", "x[0] * 2"),
+    ("apply", "apply(fn(x) {F}, [1])", "x + 1"), ("curry", "curry(fn(a, b) {F}, 1)(2)", "a - b"), ("min-key", "min([2, 1, 3], key = fn(x) {F})", "0 - x"),
+    ("max-key", "max([2, 1, 3], key = fn(x) {F})", "0 - x"), ("any", "any([1, 2], fn(x) {F})", "x > 1"), ("all", "all([1, 2], fn(x) {F})", "x > 1"),
+    ("unique-key", "unique([1, 2, 3, 4], fn(x) {F})", "x % 2"), ("sum-key", "sum([1, 2], fn(x) {F})", "x * 3"), ("compose", "compose(fn(x) {F}, fn(x) x + 1)(1)", "x * 5"),
+    ("pipe", "[1, 2] !> map_list(fn(x) {F})", "x * 2"), ("method", "def o = <*v = 4, m = fn(self) {F}*>; o->m()", "self->v + 1"),
+    ("to-string-member", "def o = <*v = 4, _str_ = fn(self) {F}*>; string(o)", "'obj' + string(self->v)"),
+    ("to-string-member-in-list", "def o = <*v = 4, _str_ = fn(self) {F}*>; string([o])", "'obj' + string(self->v)"),
+    ("process_lines", "def acc = []; process_lines(str_input('a\\nb'), fn(line) do append(acc, line); {F} end); acc", "line + '!'"),
+    ("process_lines-result", "process_lines(str_input('a\\nb'), fn(line) {F})", "line + '!'"),
+    ("grep-key", "grep(['a', 'b'], //a//, key = fn(x) {F})", "x + 'a'"), ("default-argument", "def g_(x) {F}; def f(a = g_(3)) a; f()", "x * 2"),
+    ("interpolation", "def cb(x) {F}; s('<{cb(2)}>')", "x * 2"), ("eval", "def cb(x) {F}; eval('cb(2)')", "x * 2"),
+    ("comprehension", "def cb(x) {F}; [cb(y) for y in [1, 2]]", "x * 2"), ("spread", "def cb(x) {F}; [...[cb(1), cb(2)]]", "x * 2"),
+    ("map-literal-key", "def cb(x) {F}; <<<cb(1) => cb(2)>>>", "x * 2"), ("new", "def C = <*_init_ = fn(self, x) do self->v = ({F}) end*>; new(C, 3)->v", "x * 2"),
+    ("nested-sorted", "sorted([[2, 1], [1, 4]], key = fn(l) sorted(l, cmp = fn(a, b) {F}))", "compare(a, b)"),
+    ("sorted-key-and-cmp", "sorted([13, 2, 11], key = fn(a) a % 10, cmp = fn(a, b) {F})", "compare(b, a)"),
+]
+# bodies that compute E and leave by `return` from somewhere other than the last statement
+RETURN_BODIES = [
+    ("early-if", "do if TRUE then return ({E}); 'not reached' end"), ("skipped-if", "do if FALSE then return 'wrong'; {E} end"),
+    ("from-for", "do for i_ in [1, 2] do return ({E}) end; 'not reached' end"), ("from-while", "do while TRUE do return ({E}) end; 'not reached' end"),
+    ("from-nested-block", "do do do return ({E}) end end; 'not reached' end"), ("from-catch", "do do error 'x_' catch 'x_' return ({E}) end; 'not reached' end"),
+    ("from-try-with-finally", "do do return ({E}) finally 0 end; 'not reached' end"), ("second-statement", "do def t_ = ({E}); return t_; 'not reached' end"),
+    ("inner-function-returns", "do def in_() do return 'inner'; 'nr' end; in_(); {E} end"), ("trailing-return", "do return ({E}) end"),
+    ("elif-branch", "do if FALSE then return 'a' elif TRUE then return ({E}) else return 'c'; 'not reached' end"),
+]
+
+
+# an exit written as the value of a definition or assignment leaves the function / loop there and then.  (Exits written
+# inside other operand positions - call arguments, operator operands, literals, conditions - are handed on as marker
+# values by this implementation; the statement fixes which construct an exit affects, not where one may be written, so
+# those positions are not asserted: see DESIGN 10.6.)
+EXIT_IN_OPERAND = [
+    ("def-value", "def x_ = {X}"), ("assigned-value", "def x_ = 0; x_ = {X}"),
+    ("def-value-after-calls", "g(1); def x_ = {X}"), ("block-statement", "do g(1); {X} end"),
+]
+
+
+def run_exit_in_operand(ctx):
+    import ckl.functions
+    it, out = core.new_interpreter(secure=True, legacy=True)
+    for name, expr in EXIT_IN_OPERAND:
+        for xname, x, want in (("return", "(do return 5 end)", "[5, []]"), ("return-in-if", "(do if TRUE then return 5; 6 end)", "[5, []]")):
+            src = ("def acc = []; def g(x = 0) do append(acc, 'g ran'); x end; def g2(a, b) do append(acc, 'g2 ran'); a end; "
+                   "def f() do %s; append(acc, 'statement after'); 'not returned' end; [f(), acc]" % expr.replace("{X}", x))
+            o = core.observe(lambda: it.interpret(src, "c04exit", ckl.functions.Environment()), 500000)
+            ctx.count("exit_in_operand_programs")
+            ctx.case(("exit-in-operand", name, xname), nontrivial=True)
+            got = core.safe_str(o.value, 200) if o.kind == "value" else "%s: %s" % (o.kind, core.safe_str(getattr(o.exc, "msg", o.exc), 120))
+            if got != want.replace("[]", "['g ran']" if "g(1)" in expr else "[]"):
+                ctx.violation("C04:exit-in-operand:%s" % name, "%s -> %s; `return 5` should leave f at once with 5" % (src, got), {"src": src})
+        for xname, x in (("break", "(do break end)"), ("continue", "(do continue end)")):
+            src = ("def acc = []; def g(x = 0) do append(acc, 'g ran'); x end; def g2(a, b) do append(acc, 'g2 ran'); a end; "
+                   "for i in [1, 2] do %s; append(acc, 'statement after') end; acc" % expr.replace("{X}", x))
+            if name == "return-value":
+                continue
+            o = core.observe(lambda: it.interpret(src, "c04exit", ckl.functions.Environment()), 500000)
+            ctx.count("exit_in_operand_programs")
+            ctx.case(("exit-in-operand", name, xname), nontrivial=True)
+            got = core.safe_str(o.value, 200) if o.kind == "value" else "%s: %s" % (o.kind, core.safe_str(getattr(o.exc, "msg", o.exc), 120))
+            pre = expr.split("{X}")[0]
+            # what ran before the exit is fine; nothing after it may run, neither in the expression nor in the loop body
+            ok = o.kind == "value" and "statement after" not in got and "g2 ran" not in got and got.count("g ran") <= (2 if xname == "continue" else 1) * pre.count("g(")
+            want = "nothing after the exit runs"
+            if not ok:
+                ctx.violation("C04:exit-in-operand:%s" % name, "%s -> %s; `%s` should end the loop body at once" % (src, got, xname), {"src": src})
+
+
+def run_returns(spec, ctx):
+    """`return` leaves the innermost function with its value wherever that function was called from: directly, or by a
+    library function that was handed it as a callback"""
+    import ckl.functions
+    legacy = spec["legacy"]
+    it, out = core.new_interpreter(secure=True, legacy=legacy)
+    pre = "" if legacy else "require List unqualified; require String unqualified; require Core unqualified; require IO unqualified; "
+
+    def ev(src):
+        out.output = ""
+        o = core.observe(lambda: it.interpret(pre + src, "c04ret", ckl.functions.Environment()), 2000000)
+        if o.kind == "value":
+            return ("value", core.safe_str(o.value, 300))
+        if o.kind == "rte":
+            return ("rte", core.safe_str(getattr(o.exc, "value", None), 100))
+        return (o.kind, core.safe_str(o.exc, 100))
+    for name, form, e in RETURN_CALLBACKS:
+        base = ev(form.replace("{F}", "(" + e + ")"))
+        if base[0] != "value":
+            ctx.count("return_forms_not_available")
+            ctx.note("callback form not usable (%s): %s -> %s" % ("legacy" if legacy else "non-legacy", name, base))
+            continue
+        ctx.count("return_forms_usable")
+        for bname, body in RETURN_BODIES:
+            src = form.replace("{F}", body.replace("{E}", e))
+            got = ev(src)
+            ctx.count("return_programs")
+            ctx.case(("return", legacy, name, bname), nontrivial=True)
+            if got != base:
+                ctx.violation("C04:return-from-callback:%s:%s" % (name, bname), "%s -> %s %s, but with the plain body (%s) -> %s" % (src, got[0], got[1], e, base[1]), {"src": src})
+    ctx.sample({"return_callbacks": len(RETURN_CALLBACKS), "bodies": len(RETURN_BODIES)})
+    if legacy:
+        run_exit_in_operand(ctx)
+
+
 def run_shard(spec, ctx):
+    if spec["kind"] == "returns":
+        return run_returns(spec, ctx)
     R = differ.RealRunner(secure=True, legacy=True)
     r = ctx.rng
     if spec["kind"] == "order":
@@ -183,7 +295,7 @@ def finalize(merged, tier):
     reasons = []
     if c.get("harness_syntax_errors", 0):
         reasons.append("%d generated programs did not parse (harness defect)" % c["harness_syntax_errors"])
-    for k in ("differential_comparisons", "comprehension_loop_pairs", "log_events", "order_programs", "order_programs_after_edits"):
+    for k in ("differential_comparisons", "comprehension_loop_pairs", "log_events", "order_programs", "order_programs_after_edits", "return_programs"):
         if c.get(k, 0) == 0:
             reasons.append("monitor counter %s is zero" % k)
     disc = {m: c.get("discriminates_" + m, 0) for m in sorted(set(MODES + COMP_MODES))}
